@@ -58,7 +58,8 @@ OrderOK(i) ==
 TOrder ==
   IF ~OrderOK(1) THEN Reject("C18-invocation", <<1, NamesOf(1)>>)
   ELSE IF ~OrderOK(2) THEN Reject("C18-invocation", <<2, NamesOf(2)>>)
-  ELSE IF SetOf(NamesOf(2)) \cap DieLater # {} THEN Reject("C18-dead-plugin-invoked", <<NamesOf(2)>>)
+  ELSE IF ~OrderOK(3) THEN Reject("C18-invocation", <<3, NamesOf(3)>>)
+  ELSE IF (SetOf(NamesOf(2)) \cup SetOf(NamesOf(3))) \cap DieLater # {} THEN Reject("C18-dead-plugin-invoked", <<NamesOf(2), NamesOf(3)>>)
   ELSE Go("reports", s)
 
 \* after Stop nothing that was launched is alive (a zombie is not alive)
